@@ -158,6 +158,10 @@ def run(ctx):
     answers = [f for f in fails if f["hist"][f["fails"][0][0]]["op"] not in ("split", "combine", "merge")]
     ctx.cov["structure_failures_left_to_C15"] = len(fails) - len(answers)
     SC.report_failures(ctx, "C12", answers)
+    # the model of class CompositeFrontend (Claripy/Solver/Composite.lean, what C12_children_partition / C12_add_keeps_partition /
+    # C12_satisfiable_correct are about) against the real class: same histories, answer + bookkeeping compared after every call
+    from lib import solver_composite_corr as CC
+    CC.run(ctx, workers=workers)
 
 
 def replay(ctx, obj):
